@@ -47,6 +47,31 @@ func Slice(schema ZogSchema, opts ...SchemaOption) *SliceSchema {
 	return s
 }
 
+// copies a default slice, and the slices and pointed-to values nested in it, so that the copy shares no
+// mutable memory with the schema's default
+func copyDefault(src reflect.Value, t reflect.Type) reflect.Value {
+	switch src.Kind() {
+	case reflect.Slice:
+		if src.IsNil() {
+			return reflect.Zero(t)
+		}
+		cp := reflect.MakeSlice(t, src.Len(), src.Len())
+		for i := 0; i < src.Len(); i++ {
+			cp.Index(i).Set(copyDefault(src.Index(i), t.Elem()))
+		}
+		return cp
+	case reflect.Pointer:
+		if src.IsNil() {
+			return reflect.Zero(t)
+		}
+		cp := reflect.New(t.Elem())
+		cp.Elem().Set(copyDefault(src.Elem(), t.Elem()))
+		return cp
+	default:
+		return src
+	}
+}
+
 // Validates a slice
 func (v *SliceSchema) Validate(data any, options ...ExecOption) ZogIssueMap {
 	errs := p.NewErrsMap()
@@ -88,10 +113,7 @@ func (v *SliceSchema) validate(ctx *p.SchemaCtx) {
 	if isZeroVal || refVal.Len() == 0 {
 		if v.defaultVal != nil {
 			// copy the default so that the validated value never shares memory with the schema
-			defVal := reflect.ValueOf(v.defaultVal)
-			cp := reflect.MakeSlice(refVal.Type(), defVal.Len(), defVal.Len())
-			reflect.Copy(cp, defVal)
-			refVal.Set(cp)
+			refVal.Set(copyDefault(reflect.ValueOf(v.defaultVal), refVal.Type()))
 		} else if v.required == nil {
 			return
 		} else {
